@@ -330,36 +330,38 @@ func c16(r *core.Report) {
 				k++
 				n++
 				key := fmt.Sprintf("parent:%s->%s#%d", m.Name(), callee.Name(), k)
-				// which add result is in scope for the object passed?
-				rs := ff.Roots(last, false)
-				usesParent := parentObj == nil || rs.Objs[parentObj]
+				// the flag expression's own operands (no expansion through the add call's arguments)
+				operands := map[types.Object]bool{}
+				ast.Inspect(last, func(x ast.Node) bool {
+					if id, ok := x.(*ast.Ident); ok {
+						if v, ok := info.ObjectOf(id).(*types.Var); ok {
+							operands[v] = true
+						}
+					}
+					return true
+				})
+				usesParent := parentObj == nil || operands[parentObj]
+				if !usesParent {
+					// a local computed from the parent flag by isExternalRef (pathIsExternal)
+					for o := range operands {
+						for _, as := range ff.Assigns(o) {
+							if call, ok := as.Rhs.(*ast.CallExpr); ok {
+								if cal := core.CalleeOf(info, call); cal != nil && cal.Name() == "isExternalRef" {
+									for _, a := range call.Args {
+										if id, ok := a.(*ast.Ident); ok && info.ObjectOf(id) == parentObj {
+											usesParent = true
+										}
+									}
+								}
+							}
+						}
+					}
+				}
 				if m.Name() == "InternalizeRefs" {
 					usesParent = true // top level: there is no parent
 				}
-				// does an add*ToSpec result exist for the same object (first arg shares a root local)?
 				addRes := addResultFor(info, ff, fd, c)
-				usesAdd := true
-				if addRes != nil {
-					usesAdd = false
-					ast.Inspect(last, func(x ast.Node) bool {
-						if id, ok := x.(*ast.Ident); ok && info.ObjectOf(id) == addRes {
-							usesAdd = true
-						}
-						return true
-					})
-					// pathIsExternal := isExternalRef(ops.Ref, parentIsExternal) style locals
-				}
-				if !usesParent {
-					// a local derived from the parent flag (pathIsExternal) is fine
-					for o := range rs.Objs {
-						_ = o
-					}
-					for _, e := range rs.Exprs {
-						if id, ok := e.(*ast.Ident); ok && parentObj != nil && info.ObjectOf(id) == parentObj {
-							usesParent = true
-						}
-					}
-				}
+				usesAdd := addRes == nil || operands[addRes]
 				switch {
 				case !usesParent:
 					r.Bad(key, p.Pos(c.Pos()), "the nested descent does not receive the parent's external flag: references inside an internalised component stay relative to the external file")
